@@ -661,6 +661,41 @@ fn reg_order_sweep(rep: &mut Report, max_len: usize) {
     }
 }
 
+/// A function with unusual unwind codes (xmm saves, machine frame, raw large allocation, far
+/// saves, more pushes / epilog pops than a cacheable rule can hold): structurally valid, outside
+/// what the ground-truth simulator covers.
+pub fn gen_unusual_pe_func(p: &mut Prng, begin: u32) -> PeFuncSpec {
+    let mut codes = Vec::new();
+    let mut o = 40u8;
+    let many_pushes = p.chance(1, 4);
+    for _ in 0..(if many_pushes { 7 + p.below(6) } else { 1 + p.below(4) }) {
+        let op = match if many_pushes { 5 } else { p.below(7) } {
+            0 => PeOpSpec::SaveXmm(6, 16 * p.below(8) as u32),
+            1 => PeOpSpec::MachFrame(p.chance(1, 2)),
+            2 => PeOpSpec::AllocLargeRaw(*p.pick(&[12u32, 0x8_0000, 0x7_fff8, 0x8_0004, 1])),
+            3 => PeOpSpec::SaveNonvol(3, 0x10_0000 + 8 * p.below(4) as u32),
+            4 => PeOpSpec::Alloc(8 * (1 + p.below(40) as u32)),
+            5 => PeOpSpec::Push(*p.pick(&[3u8, 5, 6, 7, 12, 13, 14, 15, 0, 4])),
+            _ => PeOpSpec::SetFp,
+        };
+        codes.push((o, op));
+        o = o.saturating_sub(if many_pushes { 2 } else { 4 + p.below(6) as u8 });
+    }
+    let fr = if p.chance(1, 2) { Some(*p.pick(&[5u8, 3, 13])) } else { None };
+    let mut bytes = vec![0x90u8; 48];
+    if p.chance(1, 4) {
+        // an epilog with more pops than a rule can hold: add rsp,16; pop x 7..12; ret
+        bytes.extend_from_slice(&[0x48, 0x83, 0xc4, 0x10]);
+        for _ in 0..(7 + p.below(6)) {
+            bytes.extend_from_slice(*p.pick(&[&[0x5bu8][..], &[0x5e], &[0x5f], &[0x41, 0x5c], &[0x41, 0x5d], &[0x41, 0x5e], &[0x41, 0x5f], &[0x5d]]));
+        }
+        bytes.push(0xc3);
+    } else {
+        bytes.extend_from_slice(&[0x48, 0x83, 0xc4, 0x0c, 0x5b, 0xc3]); // add rsp,12; pop rbx; ret
+    }
+    PeFuncSpec { begin, end: begin + bytes.len() as u32, frame_reg: fr, frame_off: 16 * p.below(4) as u8, infos: vec![PeInfoSpec { codes }], bytes }
+}
+
 pub fn run(tier: &str, seed: u64) -> Report {
     let mut rep = Report::new("pe");
     reg_order_sweep(&mut rep, if tier == "thorough" { 8 } else { 5 });
@@ -681,38 +716,9 @@ pub fn run(tier: &str, seed: u64) -> Report {
             chain.push((funcs.len(), sel));
             funcs.push(f);
         }
-        // a function with unusual unwind codes (xmm saves, machine frame, raw large allocation,
-        // far saves), exercised only in the differential part
+        // a function with unusual unwind codes, exercised only in the differential part
         {
-            let mut codes = Vec::new();
-            let mut o = 40u8;
-            let many_pushes = p.chance(1, 4);
-            for _ in 0..(if many_pushes { 7 + p.below(6) } else { 1 + p.below(4) }) {
-                let op = match if many_pushes { 5 } else { p.below(7) } {
-                    0 => PeOpSpec::SaveXmm(6, 16 * p.below(8) as u32),
-                    1 => PeOpSpec::MachFrame(p.chance(1, 2)),
-                    2 => PeOpSpec::AllocLargeRaw(*p.pick(&[12u32, 0x8_0000, 0x7_fff8, 0x8_0004, 1])),
-                    3 => PeOpSpec::SaveNonvol(3, 0x10_0000 + 8 * p.below(4) as u32),
-                    4 => PeOpSpec::Alloc(8 * (1 + p.below(40) as u32)),
-                    5 => PeOpSpec::Push(*p.pick(&[3u8, 5, 6, 7, 12, 13, 14, 15, 0, 4])),
-                    _ => PeOpSpec::SetFp,
-                };
-                codes.push((o, op));
-                o = o.saturating_sub(if many_pushes { 2 } else { 4 + p.below(6) as u8 });
-            }
-            let fr = if p.chance(1, 2) { Some(*p.pick(&[5u8, 3, 13])) } else { None };
-            let mut bytes = vec![0x90u8; 48];
-            if p.chance(1, 4) {
-                // an epilog with more pops than a rule can hold: add rsp,16; pop x 7..12; ret
-                bytes.extend_from_slice(&[0x48, 0x83, 0xc4, 0x10]);
-                for _ in 0..(7 + p.below(6)) {
-                    bytes.extend_from_slice(*p.pick(&[&[0x5bu8][..], &[0x5e], &[0x5f], &[0x41, 0x5c], &[0x41, 0x5d], &[0x41, 0x5e], &[0x41, 0x5f], &[0x5d]]));
-                }
-                bytes.push(0xc3);
-            } else {
-                bytes.extend_from_slice(&[0x48, 0x83, 0xc4, 0x0c, 0x5b, 0xc3]); // add rsp,12; pop rbx; ret
-            }
-            let spec = PeFuncSpec { begin, end: begin + bytes.len() as u32, frame_reg: fr, frame_off: 16 * p.below(4) as u8, infos: vec![PeInfoSpec { codes }], bytes };
+            let spec = gen_unusual_pe_func(&mut p, begin);
             begin = spec.end;
             funcs.push(PeFunc { split_at: None, spec, insns: vec![], calls: vec![], leaf_without_entry: false });
         }
